@@ -66,7 +66,7 @@ def State1.fresh : State1 := { base := State0.fresh, frmt := FRMT_DEFAULT, srcc 
 
 /-- `ComputerGeneratedFormat1.pack`: rebuilds `_csdw` from the three fields (added, not or-ed) -/
 def State1.pack (s : State1) : State1 × R Bytes :=
-  let s' := { s with base := { s.base with csdw := s.frmt * 512 + s.srcc * 256 + s.rccver } }
+  let s' := { s with base := { s.base with csdw := 512 * s.frmt + 256 * s.srcc + s.rccver } }
   match structPack CG1_pack_fmt0 [s'.base.csdw] with
   | .error e => (s', .error e)
   | .ok h => (s', .ok (h ++ s'.base.payload))
